@@ -1,6 +1,7 @@
 package checks
 
 import (
+	"context"
 	"fmt"
 	"time"
 
@@ -14,6 +15,12 @@ type Variant struct {
 	V13     bool
 	C, S    world.Cfg
 	Resumed bool // run one clean full handshake over shared stores first
+	// Interrupted (with Resumed): after the clean prelude a resumption attempt is cut off — the server's
+	// abbreviated flight never arrives and both HandshakeContext calls run into their 3 s deadline, so no
+	// fatal alert is exchanged — before the connection under test is set up.
+	Interrupted bool
+	// AliasStore (with Resumed): the session stores hand out their own slices (no defensive copies).
+	AliasStore bool
 }
 
 var pskKey = []byte{0xAB, 0xC1, 0x23, 0x45, 0x67}
@@ -77,7 +84,14 @@ func findVariant(name string) (Variant, bool) {
 func (v Variant) Setup(w *world.World, p *world.PKI) (*world.Pair, error) {
 	c, s := v.C, v.S
 	if v.Resumed {
-		cs, ss := world.NewMapStore(), world.NewMapStore()
+		type lenStore interface {
+			dtls.SessionStore
+			Len() int
+		}
+		var cs, ss lenStore = world.NewMapStore(), world.NewMapStore()
+		if v.AliasStore {
+			cs, ss = world.NewAliasStore(), world.NewAliasStore()
+		}
 		c.Store, s.Store = cs, ss
 		pr, err := w.NewPair(p, c, s)
 		if err != nil {
@@ -90,6 +104,52 @@ func (v Variant) Setup(w *world.World, p *world.PKI) (*world.Pair, error) {
 		pr.CloseAll()
 		if cs.Len() == 0 || ss.Len() == 0 {
 			return nil, fmt.Errorf("resumption prelude stored no session (client %d, server %d)", cs.Len(), ss.Len())
+		}
+		if v.Interrupted {
+			ce, err := w.NewEndpoint(p, true, world.ClientAddr, world.ServerAddr, c)
+			if err != nil {
+				return nil, err
+			}
+			se, err := w.NewEndpoint(p, false, world.ServerAddr, world.ClientAddr, s)
+			if err != nil {
+				return nil, err
+			}
+			ctx, cancel := context.WithTimeout(context.Background(), 3*time.Second)
+			ce.HS = w.Go("client.Handshake(interrupted)", func(*world.Op) error { return ce.Conn.HandshakeContext(ctx) })
+			w.Settle()
+			se.HS = w.Go("server.Handshake(interrupted)", func(*world.Op) error { return se.Conn.HandshakeContext(ctx) })
+			w.Settle()
+			for i := 0; i < 400 && !(ce.HS.Done() && se.HS.Done()); i++ {
+				w.Settle()
+				d := w.Head()
+				if d == nil {
+					if !w.WaitActivity(500 * time.Millisecond) {
+						continue
+					}
+					continue
+				}
+				w.Take(d)
+				lost := false
+				if d.Src == world.ServerAddr {
+					recs, _ := world.ParseDatagram(d.Data, 0)
+					for _, r := range recs {
+						if r.Type == world.CTChangeCipherSpec || r.Epoch > 0 {
+							lost = true // the abbreviated flight (ServerHello, ChangeCipherSpec, Finished) is lost, every time
+						}
+					}
+				}
+				if !lost {
+					w.Push(d.Src, d.Dst, d.Data)
+				}
+			}
+			cancel()
+			w.Settle()
+			_ = ce.Conn.Close()
+			_ = se.Conn.Close()
+			w.Settle()
+			for _, d := range w.InFlight() {
+				w.Take(d)
+			}
 		}
 	}
 	return w.NewPair(p, c, s)
